@@ -74,6 +74,12 @@ CLAIMS = {
                   'at several positions of a larger schema and validates it against independent copies.',
              technique='TLC model checking of ZogChain + TLC-emitted chains executed on the real builder API and validated by TLC (Trace_Exec)', ref='5 C17, 3.6',
              note='Chains cover String (Not, Len, Contains, Min, TestFunc) and Int (GTE, LTE, TestFunc) with Required/Optional/Default/Catch; WithCoercer locality is covered by rows of Tab_C03 (C03 check).'),
+ 'C19': dict(engine='ZogHeap', text='A small TLA+ model of memory ownership (schema-, input- and destination-owned cells; install-by-copy vs install-by-alias per site; a write through the destination; a second execution) '
+                  'is model-checked (SchemaAndInputImmutable, NoSharedMemory, SecondRunSame) and its aliasing variant must be rejected. The harness runs the corresponding episodes on the real library for every copy site and mode with '
+                  'destination-mutating PostTransforms, observing pointer identity (unsafe.SliceData), deep equality of schema-owned and input values before/after, and a second identical execution; TLC re-evaluates the invariants on '
+                  'the observations. Input deep-equality is additionally checked on every random nested Parse case (Trace_Exec).',
+             technique='TLC model checking of ZogHeap + observed ownership episodes on the real library validated by TLC', ref='5 C19, 3.7',
+             note='The model is deliberately small; the binding is by observation (pointer identity, deep equality), not lock-step. Values captured by user closures are outside.'),
 }
 NA_REASON = 'check not built yet (work in progress; DESIGN.md section 11 gives the build order)'
 checks = []
@@ -88,7 +94,8 @@ for p in props:
 m = dict(version=1, setup_cmd='bin/setup',
          hooks=dict(guard='verif', enable='go build -tags verif (harness module replaces github.com/Oudwins/zog with /repo)',
                     baseline_off_cmd='cd /repo && go test -vet=off -count=1 ./...', source_commits=hook_commits, add_only=True),
-         engines=[dict(name='ZogChain', path='/verif/spec/ZogChain.tla', serves_properties=['C17'], kind_free_text='TLA+ builder-chain machine vs declarative reading + chains executed on the real builder API'),
+         engines=[dict(name='ZogHeap', path='/verif/spec/ZogHeap.tla', serves_properties=['C19'], kind_free_text='TLA+ ownership model + observed episodes'),
+                  dict(name='ZogChain', path='/verif/spec/ZogChain.tla', serves_properties=['C17'], kind_free_text='TLA+ builder-chain machine vs declarative reading + chains executed on the real builder API'),
                   dict(name='Tables', path='/verif/spec/Tab_C18.tla', serves_properties=['C18', 'C03', 'C04', 'C20', 'C11'], kind_free_text='finite decision tables in TLA+ (Tab_C03, Tab_C04, Tab_C18): TLC checks table invariants, emits rows, validates observed outcomes'),
                   dict(name='ZogBuild', path='/verif/spec/ZogBuild.tla', serves_properties=['C16'], kind_free_text='TLA+ model of builder histories over Go slices with backing-array identity + trace validation'),
                   dict(name='ZogPools', path='/verif/spec/ZogPools.tla', serves_properties=['C07', 'C08'], kind_free_text='TLA+ model of pooled objects, call histories and goroutines (TLC) + history replay + TLC trace validation of pool events'),
